@@ -156,8 +156,10 @@ class ControlClient(asyncio.Protocol):
         _LOGGER.debug("%s from %s", request, addr)
 
         for i in range(request.lost_packets):
-            if request.lost_seqno + i in self.packet_backlog:
-                packet = self.packet_backlog[request.lost_seqno + i]
+            # Sequence numbers are 16 bit and wrap around
+            seqno = (request.lost_seqno + i) % (2**16)
+            if seqno in self.packet_backlog:
+                packet = self.packet_backlog[seqno]
 
                 # Very "low level" here just because it's simple and avoids
                 # unnecessary conversions
@@ -167,7 +169,7 @@ class ControlClient(asyncio.Protocol):
                 if self.transport:
                     self.transport.sendto(resp, addr)
             else:
-                _LOGGER.debug("Packet %d not in backlog", request.lost_seqno + 1)
+                _LOGGER.debug("Packet %d not in backlog", seqno)
 
     @staticmethod
     def error_received(exc):
